@@ -2179,16 +2179,25 @@ func (interp *Interpreter) cfg(root *node, sc *scope, importPath, pkgName string
 					err = n.cfgErrorf("undefined selector: %s.%s", pkg, name)
 				}
 			case isStruct(n.typ) || isInterfaceSrc(n.typ):
-				// Find a matching field.
-				if ti := n.typ.lookupField(n.child[1].ident); len(ti) > 0 {
+				// Find a matching field. The shallowest one is selected.
+				ti := n.typ.lookupField(n.child[1].ident)
+				var s reflect.StructField
+				var lind []int
+				var ok bool
+				if len(ti) != 1 {
+					if s, lind, ok = n.typ.lookupBinField(n.child[1].ident); ok {
+						lind = append(lind, s.Index...)
+					}
+				}
+				if len(ti) > 0 && !(ok && len(lind) < len(ti)) {
 					if isStruct(n.typ) {
 						// If a method of the same name exists, use it if it is shallower than the struct field.
 						// if method's depth is the same as field's, this is an error.
 						d := n.typ.methodDepth(n.child[1].ident)
-						if d >= 0 && d < len(ti) {
+						if d >= 0 && d < len(ti)-1 {
 							goto tryMethods
 						}
-						if d == len(ti) {
+						if d == len(ti)-1 {
 							err = n.cfgErrorf("ambiguous selector: %s", n.child[1].ident)
 							break
 						}
@@ -2216,18 +2225,17 @@ func (interp *Interpreter) cfg(root *node, sc *scope, importPath, pkgName string
 					}
 					break
 				}
-				if s, lind, ok := n.typ.lookupBinField(n.child[1].ident); ok {
+				if ok {
 					// Handle an embedded binary field into a struct field.
 					n.gen = getIndexSeqField
-					lind = append(lind, s.Index...)
 					if isStruct(n.typ) {
 						// If a method of the same name exists, use it if it is shallower than the struct field.
 						// if method's depth is the same as field's, this is an error.
 						d := n.typ.methodDepth(n.child[1].ident)
-						if d >= 0 && d < len(lind) {
+						if d >= 0 && d < len(lind)-1 {
 							goto tryMethods
 						}
-						if d == len(lind) {
+						if d == len(lind)-1 {
 							err = n.cfgErrorf("ambiguous selector: %s", n.child[1].ident)
 							break
 						}
@@ -3658,7 +3666,18 @@ func matchSelectorMethod(sc *scope, n *node) (err error) {
 		return err
 	}
 
-	if m, lind := n.typ.lookupMethod(name); m != nil {
+	// The method declared at the shallowest depth is selected.
+	m, lind := n.typ.lookupMethod(name)
+	var bm reflect.Method
+	var blind []int
+	var isPtr, bok bool
+	if m == nil || len(lind) > 0 {
+		if bm, blind, isPtr, bok = n.typ.lookupBinMethod(name); bok && len(blind) < len(lind) {
+			m = nil
+		}
+	}
+
+	if m != nil {
 		n.action = aGetMethod
 		if n.child[0].isType(sc) {
 			// Handle method as a function with receiver in 1st argument.
@@ -3678,7 +3697,7 @@ func matchSelectorMethod(sc *scope, n *node) (err error) {
 		return nil
 	}
 
-	if m, lind, isPtr, ok := n.typ.lookupBinMethod(name); ok {
+	if m, lind := bm, blind; bok {
 		n.action = aGetMethod
 		switch {
 		case isPtr && n.typ.fieldSeq(lind).cat != ptrT:
